@@ -322,6 +322,37 @@ def ev(e, env):
         if v is False:
             return _else(e, env)
         return _both(e, env)
+    if k == "Expr::Match":
+        v = ev(e["expr"], env)
+        if not _is_opt(v):
+            return _both_match(e, env)
+        for arm in e["arms"]:
+            pat = arm["pat"]
+            pk = A.kind(pat)
+            if arm.get("guard"):
+                return _both_match(e, env)
+            hit = False
+            ce = env.child()
+            if pk == "Pat::Wild":
+                hit = True
+            elif pk == "Pat::Ident" and pat["ident"]["sym"] == "None":
+                hit = v == NONE
+            elif pk == "Pat::Path" and A.path_last(pat["path"]) == "None":
+                hit = v == NONE
+            elif pk == "Pat::Ident":
+                hit = True
+                ce.locals[pat["ident"]["sym"]] = v
+            elif pk == "Pat::TupleStruct" and A.path_last(pat["path"]) == "Some":
+                hit = v != NONE
+                names = A.pat_idents(pat)
+                if hit and len(names) == 1:
+                    ce.locals[names[0]] = v[1]
+            else:
+                return _both_match(e, env)
+            if hit:
+                b = arm["body"]
+                return run_block(b["block"], ce) if A.kind(b) == "Expr::Block" else ev(b, ce)
+        return TOP
     if k == "Expr::Macro":
         return TOP
     # unknown expression kinds: evaluate nothing, definite about nothing
@@ -336,6 +367,14 @@ def _else(e, env):
     if isinstance(x, dict) and "0" in x and A.kind(x) is None:
         x = x["0"]
     return ev(x, env) if A.kind(x) != "Block" else run_block(x, env.child())
+
+
+def _both_match(e, env):
+    for pl in _writes(e):
+        env.set(pl, TOP)
+    for r, _ in A.find(e, "Expr::Return"):
+        env.root().may_return.append(A.render(r)[:80])
+    return TOP
 
 
 def _writes(node):
